@@ -1,4 +1,5 @@
-"""C10 - extra corpus for R3 (the Python side of the text round trip).
+"""C10 - extra corpus for R3 (the Python side of the text round trip), R8 (the parse tree is not modified on its way to
+the reconstructor) and R7 (ignored terminals keep lexical precedence) - the R8 / R7 entries are at the end of the file.
 
 R3 locates the post-processor by role (the callable handed to `Reconstructor.reconstruct`) and decides token preservation
 by an inductive argument over one arbitrary iteration of its loop over the items (path-wise value flow with symbolic
@@ -276,3 +277,61 @@ M("C10", "set-keyword-not-buffered", F, '                line.append(item)\n', '
 M("C10", "comment-text-yielded", F, '                    yield " " * 4 * indent\n', '                    yield " " * 4 * indent\n                    yield "# line\\n"\n', "C10.R3")
 M("C10", "item-yielded-twice", F, '                        yield x\n', '                        yield x\n                        yield " "\n                        yield x\n', "C10.R3")
 M("C10", "flush-only-long-lines", F, '                if item in "{};":\n', '                if item in "{};" and len(line) > 1:\n', "C10.R3")
+
+
+# ---------------------------------------------------------------------------------------------------- R8: the parser's tree is the tree that is printed
+# (a part of the tree = whatever is read off the `.parse(...)` result / the profile's `.tree` by attribute, item, iteration,
+# unpacking, navigation method; fresh collections of parts - list(..), slices, comprehensions - may be changed freely)
+FROM_PATH = '            return cls.from_text(f.read())\n'
+M("C10", "from-text-sorts-blocks-in-place", F, FROM_TEXT, '        tree = c2profile_parser.parse(source)\n        tree.children.sort(key=lambda t: t.data)\n        profile.tree = tree\n', "C10.R8")
+M("C10", "from-text-lowercases-variant-names", F, FROM_TEXT,
+  FROM_TEXT + '        for node in profile.tree.iter_subtrees():\n            if node.data == "variant":\n                name = node.children[0].children[0]\n'
+  '                node.children[0].children[0] = Token("STRING", name.lower())\n', "C10.R8")
+M("C10", "from-text-drops-empty-blocks", F, FROM_TEXT,
+  FROM_TEXT + '        for block in profile.tree.find_pred(lambda t: not t.children):\n            block.data = "empty"\n'
+  '        profile.tree.children[:] = [b for b in profile.tree.children if b.data != "empty"]\n', "C10.R8")
+M("C10", "from-text-keeps-last-duplicate-option", F, FROM_TEXT,
+  '        tree = c2profile_parser.parse(source)\n        seen = {}\n        for i, (name, *_rest) in enumerate(b.children for b in tree.children if b.data == "option"):\n            seen[name] = i\n'
+  '        blocks = tree.children\n        for b in [b for b in blocks if b.data == "option"][:-1]:\n            if seen.get(b.children[0]) is not None:\n                blocks.remove(b)\n        profile.tree = tree\n', "C10.R8")
+M("C10", "as-text-filters-children", F, RETURN, '        self.tree.children = [c for c in self.tree.children if c.children]\n' + RETURN, "C10.R8")
+M("C10", "as-text-pops-trailing-options", F, RETURN,
+  '        blocks = self.tree.children\n        while blocks and blocks[-1].data == "option":\n            blocks.pop()\n' + RETURN, "C10.R8")
+M("C10", "as-text-helper-method-merges-variants", F, RETURN,
+  '        self._merge_default_blocks(self.tree)\n' + RETURN + '\n    @staticmethod\n    def _merge_default_blocks(tree):\n        for block in tree.children:\n'
+  '            kids = block.children\n            if kids and isinstance(kids[0], Tree) and kids[0].data == "variant":\n                del kids[0]\n', "C10.R8")
+M("C10", "from-path-deduplicates-blocks", F, FROM_PATH,
+  '            profile = cls.from_text(f.read())\n        seen = []\n        for block in list(profile.tree.children):\n            if block in seen:\n                profile.tree.children.remove(block)\n'
+  '            seen.append(block)\n        return profile\n', "C10.R8")
+T("C10", "twin-from-text-inspects-tree", F, FROM_TEXT,
+  '        tree = c2profile_parser.parse(source)\n        names = [block.data for block in tree.children]\n        names.sort()\n        logger.debug("parsed blocks: %s", names)\n'
+  '        kids = list(tree.children)\n        kids.pop()\n        first = tree.children[:1]\n        first.clear()\n        profile.tree = tree\n        profile._dict_hash = None\n')
+T("C10", "twin-as-text-counts-nodes", F, RETURN,
+  '        counts = collections.Counter(t.data for t in self.tree.iter_subtrees())\n        counts.pop("string", None)\n        logger.debug("rendering %s", counts)\n        seen = []\n'
+  '        for block in self.tree.children:\n            seen.append(block.data)\n' + RETURN)
+T("C10", "twin-from-text-validating-helper", F, FROM_TEXT, '        profile.tree = cls._checked(c2profile_parser.parse(source))\n',
+  edits=[(F, FROM_TEXT, '        profile.tree = cls._checked(c2profile_parser.parse(source))\n'),
+         (F, '    @classmethod\n    def from_path(', '    @staticmethod\n    def _checked(tree):\n        if tree.data != "start":\n            raise ValueError("not a profile tree")\n'
+          '        stack = [tree]\n        while stack:\n            node = stack.pop()\n            stack.extend(c for c in node.children if isinstance(c, Tree))\n        return tree\n\n    @classmethod\n    def from_path(')])
+# a modification through lark's visitor dispatch is not decided (undecided, not a violation)
+T("C10", "twin-from-text-visitor-undecided", F, FROM_TEXT, FROM_TEXT + '        _Stats().visit(profile.tree)\n',
+  edits=[(F, FROM_TEXT, FROM_TEXT + '        _Stats().visit(profile.tree)\n'),
+         (F, 'def value_to_string(', 'class _Stats(Visitor):\n    seen = 0\n\n    def __default__(self, tree):\n        _Stats.seen += 1\n\n\ndef value_to_string(')])
+
+# ---------------------------------------------------------------------------------------------------- R7: comments / whitespace stay ignored in every parser state
+G = "c2profile.lark"
+IMPORT_WS = '%import common.WS\n'
+IMPORT_COMMENT = '%import common.SH_COMMENT\n'
+# the comment terminal is demoted instead of another terminal being promoted: "#" (priority 0) is now tried first
+M("C10", "comment-terminal-lower-priority", G, IMPORT_COMMENT, 'SH_COMMENT.-1: /#[^\\n]*/\n', "C10.R7")
+# a prioritised regexp terminal for the `# dns_resolver` line: a comment that starts with these words is lexed as that terminal
+M("C10", "prioritised-regexp-terminal-inside-comment-language", G, IMPORT_WS, 'x',
+  "C10.R7", edits=[(G, '    | "#" "dns_resolver" string ";"             -> comment_dns_resolver', '    | _DNS_RESOLVER_NOTE string ";"             -> comment_dns_resolver'),
+                   (G, IMPORT_WS, '_DNS_RESOLVER_NOTE.2: /#[ \\t]*dns_resolver/\n\n' + IMPORT_WS)])
+# a second comment syntax whose introducer is outranked by a new prioritised punctuation terminal of a reachable rule
+M("C10", "second-comment-syntax-outranked", G, IMPORT_COMMENT, 'x',
+  "C10.R7", edits=[(G, IMPORT_COMMENT, IMPORT_COMMENT + 'C_COMMENT: /\\/[^\\n]*/\n%ignore C_COMMENT\n'),
+                   (G, IMPORT_WS, 'SLASH.1: "/"\n\n' + IMPORT_WS),
+                   (G, '    | "#" "dns_resolver" string ";"             -> comment_dns_resolver', '    | "#" "dns_resolver" string ";"             -> comment_dns_resolver\n    | "/" "dns_resolver" string ";"             -> comment_dns_resolver')])
+T("C10", "twin-named-hash-terminal-same-priority", G, IMPORT_WS, 'HASH: "#"\n\n' + IMPORT_WS)
+T("C10", "twin-priorities-on-terminals-that-start-differently", G, IMPORT_WS, 'LBRACE.1: "{"\nDNS_RESOLVER.3: "dns_resolver"\n\n' + IMPORT_WS)
+T("C10", "twin-own-comment-terminal-two-syntaxes", G, IMPORT_COMMENT, 'SH_COMMENT: /#[^\\n]*/ | "//" /[^\\n]*/\n')
